@@ -704,3 +704,16 @@ SPECS += [
                 "ada.finalize": {"lean": "Py.recordPush", "args": ["self.finAd", "ada"], "argtypes": ["List[Obj]", "Obj"], "stmt": True, "updates": ["finAd"]}},
          props=["C03", "C10"]),
 ]
+
+
+# ---- sdk/output.py, sdk/adapter.py : the ping phase — who is an end point of an output (C09 C06) ------------------------
+SPECS += [
+    dict(lean="Output_pinged", path="sdk/output.py", qual="Output.pinged", group="Output",
+         fields={"_connected_inputs": "Dict[Obj,Opt[Time]]"}, params={"source": "Obj"}, extra_params={"isAdapter": "Lean:(Nat → Bool)"},
+         ret="Unit", conds={"isinstance(source, IAdapter)": "(isAdapter source = true)"}, props=["C09", "C06"]),
+    dict(lean="Adapter_pinged", path="sdk/adapter.py", qual="Adapter.pinged", group="Output",
+         fields={"needs_push": "Bool", "announced": "List[Obj]"}, params={"source": "Obj"}, extra_params={"me": "Obj"}, ret="Unit",
+         consts={"self": ("me", "Obj")},
+         calls={"self._source.pinged": {"lean": "Py.recordPush", "args": ["self.announced", 0], "argtypes": ["List[Obj]", "Obj"],
+                                        "stmt": True, "updates": ["announced"]}}, props=["C09", "C06"]),
+]
